@@ -18,7 +18,17 @@ POOL = ['A', 'BA', 'AB', 'ABA', 'A1', 'A10', 'B', 'B-A', 'A_B', 'xA', 'gen', 're
         'copy', 'a', 'aa', 'Agg', 'C', 'CA', 'x-gen', 'out', 'A-1', 'tage0']
 FILES = [None, None, None, 'out.txt', 'dir/sub/f.dat', 'A', 'BA', 'x/A', 'res_1.csv']
 DIRECT = ['data/%s:ref', 'input/%s:copy', 'data/%s.txt:ref', 'bin/%s:ref', 'conf/x/%s:link']
-TRUE_SPELLINGS = [True, 'yes', 'true', 'True', 'y']
+TRUE_SPELLINGS = [True, 'yes', 'true', 'True', 'YES']
+
+
+def is_agg(c):
+    """workflowAttributes.aggregate as the loader reads it: booleans as they are, strings through str_to_bool
+    (true/yes, false/no, any case) -- see FlowIR.convert_component_types"""
+    v = c.get('agg')
+    if isinstance(v, str):
+        return v.lower() in ('true', 'yes')
+    return bool(v)
+
 
 
 def _mods():
@@ -91,7 +101,7 @@ def model_request(case):
     comps = []
     for c in case['comps']:
         comps.append({'stage': c['stage'], 'name': c['name'], 'repl': c['repl']['n'] if c.get('repl') else None,
-                      'agg': bool(c.get('agg')), 'args': c['args'],
+                      'agg': is_agg(c), 'args': c['args'],
                       'refs': [dict(r) for r in c['refs']]})
     return {'op': 'expand', 'comps': comps}
 
@@ -160,7 +170,7 @@ def expected(case):
     """What the property says the expansion is.  Returns {'error': kind} | {'nodes', 'edges', 'comps'}."""
     comps = case['comps']
     byid = {(c['stage'], c['name']): c for c in comps}
-    aggs = {k for k, c in byid.items() if c.get('agg')}
+    aggs = {k for k, c in byid.items() if is_agg(c)}
     count = {}
     # region: reachable from a replication point without crossing an aggregator; comps are topologically ordered
     for c in comps:
